@@ -104,6 +104,8 @@ class Contract:
         self.covers = collections.OrderedDict()
         self.bounded_ = collections.OrderedDict()
         self.responses = collections.OrderedDict()
+        self.windows = collections.OrderedDict()
+        self.cover_after = {}
         self.tick_assume = None
 
     # -- declaration API
@@ -124,12 +126,18 @@ class Contract:
     def ensures(self, name, fn):
         self.ensures_[name] = fn
 
-    def cover(self, name, fn, within=12):
+    def cover(self, name, fn, within=12, after=0):
         self.covers[name] = (fn, within)
+        self.cover_after[name] = after
 
     def bounded(self, name, fn):
         """clause checked only by bounded unrolling from reset (labelled bounded)"""
         self.bounded_[name] = fn
+
+    def window(self, name, goal, depth):
+        """goal(list of FrameViews 0..depth) must hold on every run of depth+1 consecutive frames that starts in ANY state
+        satisfying the (separately proved) invariants -- an unbounded-time proof of a finite-window property"""
+        self.windows[name] = (goal, depth)
 
     def response(self, name, trigger, goal, bound, stay=None):
         self.responses[name] = (trigger, goal, bound, stay)
@@ -436,15 +444,17 @@ def run_bounded(c, prefix, depth, clauses=None, timeout_ms=None, include_ensures
     return out
 
 
-def run_covers(c, prefix, timeout_ms=None):
+def run_covers(c, prefix, timeout_ms=None, only=None):
     """each cover is reachable from reset within its depth under the assumptions (vacuity guard)."""
     out = []
     if not c.covers:
         return out
-    maxd = max(d for _, d in c.covers.values())
+    pending = {n: v for n, v in c.covers.items() if only is None or n in only}
+    if not pending:
+        return out
+    maxd = max(d for _, d in pending.values())
     u = Unroller(c, "reset")
     s = mk_solver(timeout_ms)
-    pending = dict(c.covers)
     spent = {n: 0.0 for n in pending}
     for t in range(maxd + 1):
         v = u.views[-1]
@@ -452,6 +462,8 @@ def run_covers(c, prefix, timeout_ms=None):
             s.add(a)
         for n in list(pending):
             fn, d = pending[n]
+            if t < c.cover_after.get(n, 0):
+                continue
             r, secs = _check(s, _as_bool(fn(v)))
             spent[n] += secs
             if r == z3.sat:
@@ -470,6 +482,42 @@ def run_covers(c, prefix, timeout_ms=None):
         for x in u.constraints[n0:]:
             s.add(x)
     return out
+
+
+def run_covers_native(c, prefix, names, cycles, seed=0, tries=3, zero_first=True):
+    """existential covers witnessed on the real module by native simulation (all-zero inputs first, then random)"""
+    import random as _r
+    out = []
+    remaining = list(names)
+    t0 = time.time()
+    for attempt in range(tries):
+        if not remaining:
+            break
+        rnd = _r.Random(seed * 97 + attempt)
+        frames = []
+        for t in range(cycles):
+            ins = {}
+            for i, s_ in enumerate(c.free_list):
+                if attempt == 0 and zero_first:
+                    v = 0
+                elif s_.nbits == 1:
+                    v = 1 if rnd.random() < (0.5 if attempt == 1 else 0.15) else 0
+                else:
+                    v = rnd.getrandbits(s_.nbits) if rnd.random() < 0.5 else rnd.getrandbits(2) & ((1 << s_.nbits) - 1)
+                ins["%d:%s" % (i, signame_nodu(s_))] = v
+            frames.append({"inputs": ins, "ticks": {cd: True for cd in c.domains}})
+        clauses = {n: (lambda f, fn=c.covers[n][0]: z3.Not(_as_bool(fn(f)))) for n in remaining}
+        rr = replay_native(c, {"frames": frames}, clauses)
+        if rr["assume_fail"] is not None and rr["assume_fail"][1] == 0:
+            continue
+        lim = rr["assume_fail"][1] if rr["assume_fail"] is not None else cycles
+        for n in list(remaining):
+            ff = rr["first_fail"][n]
+            if isinstance(ff, int) and ff < lim:
+                out.append(_res("%s/cover/%s" % (prefix, n), "cover", "covered", time.time() - t0, at=ff,
+                                backend="native-simulation(migen)"))
+                remaining.remove(n)
+    return out, remaining
 
 
 def run_responses(c, prefix, timeout_ms=None, from_reset=False):
@@ -503,6 +551,55 @@ def run_responses(c, prefix, timeout_ms=None, from_reset=False):
         else:
             out.append(_res(oid, "resp", "unknown", secs, reason=s.reason_unknown()))
     return out
+
+
+def run_windows(c, prefix, timeout_ms=None):
+    out = []
+    by_depth = {}
+    for name, (goal, depth) in c.windows.items():
+        by_depth.setdefault(depth, []).append((name, goal))
+    for depth, items in sorted(by_depth.items()):
+        u = Unroller(c, "free")
+        for _ in range(depth):
+            u.extend()
+        s = mk_solver(timeout_ms)
+        for x in u.constraints:
+            s.add(x)
+        for v in u.views:
+            for a in c.all_assumes(v):
+                s.add(a)
+            for i in c.all_invs(v):
+                s.add(i)
+        for name, goal in items:
+            r, secs = _check(s, z3.Not(_as_bool(goal(u.views))))
+            oid = "%s/resp/%s<=%d" % (prefix, name, depth)
+            if r == z3.unsat:
+                out.append(_res(oid, "resp", "proved", secs, bound=depth))
+            elif r == z3.sat:
+                out.append(_res(oid, "resp", "failed", secs, bound=depth, trace=u.model_trace(s.model()), from_reset=False))
+            else:
+                out.append(_res(oid, "resp", "unknown", secs, reason=s.reason_unknown()))
+    return out
+
+
+def find_window_from_reset(c, goal, wdepth, depth, timeout_ms=None):
+    """bounded search from reset for a run whose last wdepth+1 frames violate a window goal"""
+    u = Unroller(c, "reset")
+    s = mk_solver(timeout_ms)
+    for a in c.all_assumes(u.views[-1]):
+        s.add(a)
+    for t in range(1, depth + 1):
+        n0 = len(u.constraints)
+        v = u.extend()
+        for x in u.constraints[n0:]:
+            s.add(x)
+        for a in c.all_assumes(v):
+            s.add(a)
+        if t >= wdepth:
+            r, _ = _check(s, z3.Not(_as_bool(goal(u.views[t - wdepth:t + 1]))))
+            if r == z3.sat:
+                return u.model_trace(s.model()), t - wdepth
+    return None, None
 
 
 def find_trace_from_reset(c, bad_fn, depth, timeout_ms=None):
@@ -710,3 +807,78 @@ def replay_native(c, trace, clauses, kinds=None):
                 first_fail[nm] = ("undetermined", t, str(r)[:80])
         gvals = {nm: z3.simplify(z3.substitute(e, *subs)) for nm, e in gh_next.items()}
     return {"first_fail": first_fail, "assume_fail": assume_fail, "cycles": n}
+
+
+def replay_window_native(c, trace, goal, wdepth, start):
+    """evaluate a window goal on frames start..start+wdepth of a native simulation driven by the trace's inputs.
+    Ghosts are advanced natively from reset.  Returns dict(violated=bool, assume_fail=...)"""
+    frames = trace["frames"]
+    n = len(frames)
+    sim = NativeSim(c)
+
+    def inputs_of(fr):
+        d = {}
+        for key, val in fr["inputs"].items():
+            d[c.free_list[int(key.split(":")[0])]] = val
+        return d
+    allsigs = sorted(c.tr.allsigs, key=lambda s: s.duid)
+    vals = []
+    sim.set_inputs(inputs_of(frames[0]))
+    for t in range(n):
+        vals.append({s: sim.get(s) for s in allsigs})
+        sim.step(frames[t].get("ticks"), inputs_of(frames[t + 1]) if t + 1 < n else None)
+    vals.append({s: sim.get(s) for s in allsigs})
+    # ghosts natively
+    nxt_view = FrameView(c, Frame(c.tr, "@n", opaque=True), {}, {})
+    gconsts = {nm: c.ghost_sort_const(g, "@c") for nm, g in c.ghosts.items()}
+    ticks_c = {cd: z3.Bool("tick_%s@c" % cd) for cd in c.domains}
+    cur = FrameView(c, Frame(c.tr, "@c", opaque=True), gconsts, ticks_c, nxt_view=nxt_view)
+    gh_next = {nm: g.nxt(cur) for nm, g in c.ghosts.items()}
+    as_exprs = {nm: _as_bool(fn(cur)) for nm, fn in c.assumes.items()}
+    rigid_subs = []
+    for nm, t_ in c.rigid_consts.items():
+        val = trace.get("rigid", {}).get(nm, 0)
+        rigid_subs.append((t_, z3.BoolVal(bool(val)) if z3.is_bool(t_) else bvconst(val, t_.size())))
+    gvals = {}
+    for nm, g in c.ghosts.items():
+        if g.init is None:
+            val = trace.get("ghost_init", {}).get(nm, 0)
+            gvals[nm] = z3.BoolVal(bool(val)) if g.width == "bool" else bvconst(val, g.width)
+        else:
+            gvals[nm] = c.ghost_init(g)
+    ghist = []
+    assume_fail = None
+    for t in range(n):
+        ghist.append(dict(gvals))
+        subs = list(rigid_subs)
+        for s_, cst in cur.frame.opaque_vals.items():
+            subs.append((cst, bvconst(vals[t][s_], s_.nbits)))
+        for s_, cst in nxt_view.frame.opaque_vals.items():
+            subs.append((cst, bvconst(vals[t + 1][s_], s_.nbits)))
+        for nm, cst in gconsts.items():
+            subs.append((cst, gvals[nm]))
+        for cd, cst in ticks_c.items():
+            subs.append((cst, z3.BoolVal(bool(frames[t].get("ticks", {}).get(cd, True)))))
+        for nm, e in as_exprs.items():
+            r = z3.simplify(z3.substitute(e, *subs))
+            if not z3.is_true(r) and assume_fail is None:
+                assume_fail = (nm, t, str(r)[:80])
+        gvals = {nm: z3.simplify(z3.substitute(e, *subs)) for nm, e in gh_next.items()}
+    # window views
+    wviews = []
+    subs = list(rigid_subs)
+    for j in range(wdepth + 1):
+        t = start + j
+        gc = {nm: c.ghost_sort_const(g, "@w%d" % j) for nm, g in c.ghosts.items()}
+        v = FrameView(c, Frame(c.tr, "@w%d" % j, opaque=True), gc, {cd: z3.BoolVal(True) for cd in c.domains})
+        wviews.append((v, t, gc))
+    for j in range(wdepth):
+        wviews[j][0].nxt_view = wviews[j + 1][0]
+    e = _as_bool(goal([v for v, _, _ in wviews]))
+    for v, t, gc in wviews:
+        for s_, cst in v.frame.opaque_vals.items():
+            subs.append((cst, bvconst(vals[t][s_], s_.nbits)))
+        for nm, cst in gc.items():
+            subs.append((cst, ghist[t][nm]))
+    r = z3.simplify(z3.substitute(e, *subs))
+    return {"violated": z3.is_false(r), "undetermined": not (z3.is_true(r) or z3.is_false(r)), "assume_fail": assume_fail}
